@@ -15,7 +15,7 @@ for id in "$@"; do
   # which tests does the demo add?
   if ! git apply --check $d/patch.diff 2>>$log; then echo "$id: PATCH DOES NOT APPLY"; continue; fi
   git apply $d/patch.diff
-  (cd node && cargo nextest run --workspace --no-fail-fast --offline --test-threads 12 2>&1 | grep -E "FAIL|TIMEOUT|Summary|error" | tail -25) >> $log 2>&1
+  (cd node && cargo nextest run --workspace --no-fail-fast --offline --test-threads 12 2>&1 | grep -E "^\s+(FAIL|TIMEOUT|SIG[A-Z]+|ABORT)|Summary|^error" | tail -25) >> $log 2>&1
   suite=$(grep -E "^\s*Summary" $log | tail -1)
   git apply $d/demo.diff 2>>$log || { echo "$id: DEMO DOES NOT APPLY ($suite)"; continue; }
   # names of new test functions in the demo
